@@ -315,6 +315,88 @@ theorem lru_evicts_oldest_first (s : LRUCache.State) (now : Int) (k : String) (h
   · exact (List.pairwise_append.mp hLs).2.2 p hp q hq
   · exact absurd hp hnp
 
+/-- time of the last `Add` of the history (the start time if there is none) -/
+def lastT : Int → List Op → Int
+  | T, [] => T
+  | _, .add t _ :: r => lastT t r
+  | T, _ :: r => lastT T r
+
+theorem sorted_run_upTo (ops : List Op) : ∀ (s : LRUCache.State) (T : Int), SortedUpTo s T → mono T ops →
+    SortedUpTo (ops.foldl LRUCache.step s) (lastT T ops) := by
+  induction ops with
+  | nil => intro s T h _; exact h
+  | cons o ops ih =>
+    intro s T h hm
+    cases o with
+    | add now k =>
+      obtain ⟨hT, hm'⟩ := hm
+      refine ih _ now ?_ hm'
+      have hcfg : (LRUCache.step s (.add now k)).cfg = s.cfg := step_cfg s _
+      have happ : ∀ (es : List (String × Int)), es.Sublist s.entries →
+          (es ++ [(k, now + s.cfg.ttl)]).Pairwise (fun a b => a.2 ≤ b.2) ∧
+          ∀ p ∈ es ++ [(k, now + s.cfg.ttl)], p.2 ≤ now + s.cfg.ttl := by
+        intro es hsub
+        refine ⟨?_, ?_⟩
+        · rw [List.pairwise_append]
+          refine ⟨h.1.sublist hsub, by simp, ?_⟩
+          intro a ha b hb
+          simp at hb; subst hb
+          have := h.2 a (hsub.subset ha)
+          simp only; omega
+        · intro p hp
+          rcases List.mem_append.mp hp with hp | hp
+          · have := h.2 p (hsub.subset hp); omega
+          · simp at hp; subst hp; simp
+      unfold SortedUpTo
+      rw [hcfg]
+      simp only [LRUCache.step, LRUCache.add]
+      split
+      · exact happ _ (eraseKey_sublist _ _)
+      · have := happ s.entries (List.Sublist.refl _)
+        have hsub : (enforce s.cfg.size (live (s.entries ++ [(k, now + s.cfg.ttl)]) now)).Sublist (s.entries ++ [(k, now + s.cfg.ttl)]) :=
+          (enforce_sublist _ _).trans (live_sublist _ _)
+        exact ⟨this.1.sublist hsub, fun p hp => this.2 p (hsub.subset hp)⟩
+    | delete k =>
+      refine ih _ T ?_ hm
+      have hsub := eraseKey_sublist s.entries k
+      exact ⟨h.1.sublist hsub, fun p hp => h.2 p (hsub.subset hp)⟩
+    | clear =>
+      refine ih _ T ?_ hm
+      exact ⟨by simp [LRUCache.step, LRUCache.clear], by intro p hp; simp [LRUCache.step, LRUCache.clear] at hp⟩
+
+theorem mono_append (ops : List Op) (now : Int) (k : String) : ∀ (T : Int), mono T (ops ++ [.add now k]) →
+    mono T ops ∧ lastT T ops ≤ now := by
+  induction ops with
+  | nil => intro T h; simp only [List.nil_append, mono] at h; exact ⟨trivial, h.1⟩
+  | cons o ops ih =>
+    intro T h
+    cases o with
+    | add t k' =>
+      simp only [List.cons_append, mono] at h
+      have := ih t h.2
+      exact ⟨⟨h.1, this.1⟩, this.2⟩
+    | delete k' => simp only [List.cons_append, mono] at h; exact ih T h
+    | clear => simp only [List.cons_append, mono] at h; exact ih T h
+
+/-- **C13 (B5)** "drops the least recently added or refreshed key first", for histories: after any history
+with a monotone clock, adding a new key at a later time keeps a suffix of the unexpired entries, and every
+key dropped for size was added or refreshed no later than every key that stays. -/
+theorem lru_history_evicts_oldest (cfg : LRUCache.Cfg) (T0 : Int) (ops : List Op) (now : Int) (k : String)
+    (hm : mono T0 (ops ++ [.add now k])) (hnew : find (LRUCache.run cfg ops).entries k = none) :
+    let s := LRUCache.run cfg ops
+    let L := live (s.entries ++ [(k, now + s.cfg.ttl)]) now
+    (∃ n, (LRUCache.add s now k).entries = L.drop n) ∧
+    ∀ p ∈ L, p ∉ (LRUCache.add s now k).entries → ∀ q ∈ (LRUCache.add s now k).entries, p.2 ≤ q.2 := by
+  obtain ⟨hm1, hle⟩ := mono_append ops now k T0 hm
+  have hs := sorted_run_upTo ops (LRUCache.init cfg) T0
+    ⟨by simp [LRUCache.init], by intro p hp; simp [LRUCache.init] at hp⟩ hm1
+  exact lru_evicts_oldest_first (LRUCache.run cfg ops) now k hnew hs.1
+    (fun p hp => by
+      have := hs.2 p hp
+      have e : (List.foldl LRUCache.step (LRUCache.init cfg) ops).cfg.ttl = (LRUCache.run cfg ops).cfg.ttl := rfl
+      rw [e] at this
+      omega)
+
 /-- non-vacuity: a history with a refresh, an expiry and a size eviction -/
 def demo : List Op := [.add 0 "a", .add 1 "b", .add 2 "a", .add 3 "c", .add 30 "d"]
 example : mono 0 demo := by decide
